@@ -133,5 +133,14 @@ func init() {
 		}
 		return nil
 	}
+	// vfYield is an explicit scheduling point; vfPreemptions sets the context bound of the path.
+	harnessAPI["vfYield"] = func(m *Machine, args []Value) Value {
+		m.yield()
+		return nil
+	}
+	harnessAPI["vfPreemptions"] = func(m *Machine, args []Value) Value {
+		m.sch.bound = m.ConcInt(args[0])
+		return nil
+	}
 	harnessAPI["vfSymbolic"] = func(m *Machine, args []Value) Value { return m.C.True }
 }
